@@ -117,6 +117,13 @@ def make_workload(seed, i):
         desc["evolution_breaking_edits"] = [w_ for w_ in what_ if w_]
     files = M.render_tree(pkg, "/w")
     desc["other_files_in_package_dirs"] = len(M.add_clutter(files, rng.fork("clutter")))
+    if desc.get("type_name_shared_by_two_imports") and not desc.get("evolution_breaking_edits") and rng.fork("unqforce").chance(0.7):
+        # the qualifier forgotten on a type that two imported packages define: whatever a diagnostic says about it must not vary
+        f2, d = E.invalidate(files, "/w/pkg", rng.fork("unq"), "unqualified_import_ref")
+        if f2:
+            files = f2
+            desc["unqualified_reference_to_a_name_two_imports_define"] = d
+            desc["kind"] = "invalid"
     if kind == "invalid" and not desc.get("evolution_breaking_edits"):      # (evolution is only checked once everything else is valid)
         # several independent errors so that the order of diagnostics matters
         n = rng.randint(1, 4)
